@@ -100,17 +100,26 @@ class NeuronRef:
                 scale = np.abs(v) + abs(rest) + 2 * abs(R) * iabs + np.abs(out)
             elif self.cls in QUADRATIC:
                 k = self.dt / self.tau
-                dyn = p["affinity"] * (v - rest) * (v - p["crit_v"])
+                a, crit = p["affinity"], p["crit_v"]
+                x, y = v - rest, v - crit
+                dyn = a * x * y
                 out = v + k * (dyn + R * i)
-                scale = np.abs(v) + np.abs(out) + k * (4 * np.abs(dyn) + 2 * abs(R) * iabs)
+                # scalar parameters are rounded to the working dtype when combined with the
+                # state, so a difference V - c carries the absolute error eps (|V| + |c|)
+                scale = np.abs(v) + np.abs(out) + k * (
+                    a * (np.abs(x) * (np.abs(v) + abs(crit)) + np.abs(y) * (np.abs(v) + abs(rest)))
+                    + 4 * np.abs(dyn) + 2 * abs(R) * iabs
+                )
             else:
                 k = self.dt / self.tau
-                s = p["sharpness"]
-                x = (v - p["rheobase_v"]) / s
+                s, vt = p["sharpness"], p["rheobase_v"]
+                x = (v - vt) / s
                 e = s * np.exp(x)
                 out = v + k * (-(v - rest) + e + R * i)
                 scale = np.abs(v) + np.abs(out) + k * (
-                    2 * np.abs(v - rest) + 2 * e * (np.abs(x) + 2) + 2 * abs(R) * iabs
+                    2 * (np.abs(v) + abs(rest))
+                    + 2 * e * ((np.abs(v) + abs(vt)) / s + np.abs(x) + 2)
+                    + 2 * abs(R) * iabs
                 )
         return out, scale
 
@@ -198,6 +207,8 @@ class NeuronRef:
         v, ix = Fraction(float(v)), Fraction(float(ix))
         rest, R = Fraction(self.rest), Fraction(self.R)
         theta = Fraction(self.thresh)
+        if not (rep(rest) and rep(R) and rep(theta)):  # constants are rounded to the working dtype
+            return None
         if self.cls in ADAPT_THRESH:
             # every subset sum of (theta_inf, theta_1..K) must be representable
             terms = [theta] + adapt
@@ -221,6 +232,8 @@ class NeuronRef:
             return rest + ext, theta
         if self.cls in QUADRATIC:
             a, crit = Fraction(float(p["affinity"])), Fraction(float(p["crit_v"]))
+            if not (rep(a) and rep(crit)):
+                return None
             x, y = v - rest, v - crit
             ext = R * i
             inter = [x, y, a * x, a * y, x * y, a * x * y, ext, a * x * y + ext]
